@@ -304,7 +304,7 @@ Begin ==
   /\ Quiet /\ ~st.poisoned /\ ~Scripting /\ st.round < MaxRounds
   /\ st' = StabiliseBegin(ApiClearLogs(st))
   /\ hist' = Append(hist, [a |-> "stabilise"])
-  /\ coneB' = ConeOf(st, ObservedNodes(st, LiveObs(st) \cup LinkedObs(st)), {})
+  /\ coneB' = ConeOf(st, ObservedNodes(st, LiveObs(st)), {})
   /\ acts' = acts + 1
   /\ UNCHANGED noops
 Step ==
@@ -430,6 +430,8 @@ Done == /\ Ok(st) /\ Len(hist) > 0
 RareMod == IF ExportMod <= 3 THEN 1 ELSE ExportMod \div 3
 InvExport == (Export /\ Done /\ (\/ ExportMod = 1
                                   \/ (noops # NoNoop /\ RandomElement(1..RareMod) = 1)
+                                  \* histories that end with every observer gone (work must have stopped)
+                                  \/ (st.no > 0 /\ LiveObs(st) \cup LinkedObs(st) = {} /\ RandomElement(1..RareMod) = 1)
                                   \/ RandomElement(1..ExportMod) = 1))
                 => PrintT(<<"REPLAY", ToJson(hist)>>)
 
@@ -523,7 +525,9 @@ ProgXSumShared == <<[a |-> "var", v |-> I(1)], [a |-> "var", v |-> I(0)], [a |->
                     [a |-> "xsum", sel |-> 1, ins |-> <<2, 2>>]>>
 \* the controlling node of a dynamic sum stays observed while the sum itself is not, adds a dependency
 \* meanwhile, and the sum is observed again (K = 3)
-ProgXSumCtl == <<[a |-> "var", v |-> I(0)], [a |-> "const", v |-> I(1)], [a |-> "xsum", sel |-> 1, ins |-> <<2, 2>>]>>
+\* (a map2 over the controller and the summand keeps both needed - and the summand computed - meanwhile)
+ProgXSumCtl == <<[a |-> "var", v |-> I(0)], [a |-> "const", v |-> I(1)], [a |-> "xsum", sel |-> 1, ins |-> <<2, 2>>],
+                 [a |-> "map2", f |-> "add", in |-> <<4, 2>>]>>
 
 \* compact view of a state for counterexamples
 Alias == [status |-> st.status, panic |-> st.panic, num |-> st.num, chain |-> st.chain,
